@@ -24,4 +24,37 @@ with open(os.path.join(ROOT, "README.md"), "w") as f:
     f.write("| change | property | what it needs to manifest | demo clean/patched | suite with change | caught by (quick tier) |\n|---|---|---|---|---|---|\n")
     for r in rows:
         f.write("| %s | %s | %s | %s / %s | %s | %s |\n" % r)
-print(len(rows), "rows")
+# compact table for DESIGN.md section 10.6 (between the markers)
+import re
+def conds(m):
+    out = []
+    for v in (m.get("check_result") or {}).values():
+        for line in v.get("violations", []):
+            mm = re.search(r"counterexample: (\w+)\(", line)
+            if mm and mm.group(1) not in out:
+                out.append(mm.group(1))
+    return out
+lines = ["| change | what it does / needs | caught by (quick tier) |", "|---|---|---|"]
+n_caught = n_all = 0
+for name in sorted(os.listdir(ROOT)):
+    p = os.path.join(ROOT, name, "meta.json")
+    if not os.path.exists(p):
+        continue
+    m = json.load(open(p))
+    n_all += 1
+    caught = [k for k, v in (m.get("check_result") or {}).items() if v.get("exit") == 1]
+    if caught:
+        n_caught += 1
+        how = ", ".join(caught) + ": " + ", ".join("`%s`" % c for c in conds(m)[:3])
+    else:
+        how = "**missed**" + (": " + m["miss_reason"] if m.get("miss_reason") else "")
+    lines.append("| %s | %s | %s |" % (name, (m.get("needs") or "").replace("|", "/"), how))
+lines.append("")
+lines.append("%d of %d seeded changes are caught by the quick tier of the check of their own property." % (n_caught, n_all))
+D = "/verif/DESIGN.md"
+d = open(D).read()
+a, b = "<!-- SEEDED-TABLE-BEGIN -->", "<!-- SEEDED-TABLE-END -->"
+if a in d and b in d:
+    d = d[:d.index(a) + len(a)] + "\n" + "\n".join(lines) + "\n" + d[d.index(b):]
+    open(D, "w").write(d)
+print(len(rows), "rows;", n_caught, "caught of", n_all)
